@@ -1970,8 +1970,11 @@ def _classify_ds(node, fn, kw, depth=0):
     if isinstance(node, (ast.List, ast.Tuple)):
         kinds = {_classify_ds(e, fn, kw, depth) for e in node.elts}
         return kinds.pop() if len(kinds) == 1 else ('raw' if 'raw' in kinds else 'formatted')
-    if isinstance(node, ast.ListComp):
+    if isinstance(node, (ast.ListComp, ast.GeneratorExp)):
         return _classify_ds(node.elt, fn, kw, depth)
+    if isinstance(node, ast.IfExp):
+        kinds = {_classify_ds(node.body, fn, kw, depth), _classify_ds(node.orelse, fn, kw, depth)}
+        return kinds.pop() if len(kinds) == 1 else ('raw' if 'raw' in kinds else 'formatted')
     if isinstance(node, ast.Attribute):
         return 'copied' if node.attr == kw else 'raw'
     if isinstance(node, ast.Subscript):
@@ -1983,6 +1986,10 @@ def _classify_ds(node, fn, kw, depth=0):
         for a in ast.walk(fn):
             if isinstance(a, ast.Assign) and any(isinstance(t, ast.Name) and t.id == node.id for t in a.targets):
                 kinds.add(_classify_ds(a.value, fn, kw, depth + 1))
+            elif isinstance(a, ast.Assign) and any(isinstance(t, (ast.Tuple, ast.List)) and any(
+                    isinstance(el, ast.Name) and el.id == node.id for el in t.elts) for t in a.targets):
+                # `x, y, z = (f(v) for v in ...)` / `x, y = a, b`: every component is obtained the way the elements are
+                kinds.add(_classify_ds(a.value, fn, kw, depth + 1) if not isinstance(a.value, ast.Name) else 'raw')
         if kinds and 'raw' not in kinds:
             return kinds.pop() if len(kinds) == 1 else 'formatted'
         return 'raw'
@@ -2016,6 +2023,15 @@ def build_ds_sites(_tree):
                         kind = _classify_ds(a.value, fn, kw)
                         rows.append(f'("{rel}: {fn.name}: {kw}", "{kind}")')
                         sig.append((rel, fn.name, kw, kind, ast.unparse(a.value)))
+                    elif isinstance(a, ast.Call) and ast.unparse(a.func).split('.')[-1] in ('DataElement', 'add_new') \
+                            and len(a.args) >= 3 and isinstance(a.args[1], ast.Constant) and a.args[1].value == 'DS':
+                        # an element built by hand: `DataElement(tag, 'DS', value)` / `ds.add_new(tag, 'DS', value)`
+                        inner = [g for g in funcs if g is not fn and any(x is a for x in ast.walk(g)) and any(x is g for x in ast.walk(fn))]
+                        if inner:
+                            continue
+                        kind = _classify_ds(a.args[2], fn, '')
+                        rows.append(f'("{rel}: {fn.name}: {ast.unparse(a.func).split(".")[-1]}({ast.unparse(a.args[0])[:30]}, DS)", "{kind}")')
+                        sig.append((rel, fn.name, 'element', kind, ast.unparse(a.args[2])))
     fl_rows = []
     for dp, _, fs in sorted(os.walk(root)):
         for f in sorted(fs):
